@@ -33,6 +33,9 @@ type c18Dev struct {
 	At     int    `json:"response_index"`
 	Aspect string `json:"aspect"` // status, header:<name>, body, ctype
 	Value  string `json:"value"`
+	// Sticky: the server keeps answering this way from that response on (a stuck or misconfigured
+	// server), instead of deviating once
+	Sticky bool `json:"from_then_on,omitempty"`
 }
 
 type c18Script struct {
@@ -86,8 +89,8 @@ func c18Exec(reg ociregistry.Interface, op string) {
 		r.Close()
 	}
 	n := 0
-	strs := func(s string, err error) bool { n++; return n < 20 && err == nil }
-	descs := func(d ociregistry.Descriptor, err error) bool { n++; return n < 20 && err == nil }
+	strs := func(s string, err error) bool { n++; return n < 5000 && err == nil }
+	descs := func(d ociregistry.Descriptor, err error) bool { n++; return n < 5000 && err == nil }
 	writer := func(w ociregistry.BlobWriter, err error, data ...string) {
 		if err != nil || w == nil {
 			return
@@ -250,7 +253,7 @@ func c18Run(r *vcore.Run, sc c18Script) (requests int) {
 	tr.Mangle = func(req *http.Request, status *int, header http.Header, body *[]byte) bool {
 		unknown := false
 		for _, d := range sc.Devs {
-			if d.At == idx {
+			if d.At == idx || (d.Sticky && idx > d.At) {
 				if c18ApplyDev(d, status, header, body) {
 					unknown = true
 				}
@@ -297,7 +300,11 @@ func c18DevClass(sc c18Script) string {
 		if len(v) > 24 {
 			v = v[:24] + "…"
 		}
-		parts = append(parts, fmt.Sprintf("%s=%s@%d", d.Aspect, v, d.At))
+		at := fmt.Sprint(d.At)
+		if d.Sticky {
+			at += "-onwards"
+		}
+		parts = append(parts, fmt.Sprintf("%s=%s@%s", d.Aspect, v, at))
 	}
 	s := strings.Join(parts, "+")
 	if sc.PageSize != 0 {
@@ -329,6 +336,18 @@ func c18Scripts(thorough bool) []c18Script {
 					d1 := d
 					d1.At = i
 					out = append(out, c18Script{Op: op, PageSize: ps, Devs: []c18Dev{d1}})
+					// from that response onwards: only answers that do not themselves announce more to come (a
+					// server that keeps sending a Link is a server with an endless listing, not a client that
+					// fails to stop)
+					if (i < nresp-1 || nresp == 6) && !(d.Aspect == "header:Link" && d.Value != "<absent>") {
+						ds := d1
+						ds.Sticky = true
+						out = append(out, c18Script{Op: op, PageSize: ps, Devs: []c18Dev{ds}})
+						if len(pages) > 1 && d.Aspect == "body" {
+							// a server without Link headers that keeps sending this body
+							out = append(out, c18Script{Op: op, PageSize: ps, Devs: []c18Dev{ds, {At: i, Aspect: "header:Link", Value: "<absent>", Sticky: true}}})
+						}
+					}
 					for j := i; j < nresp+1; j++ {
 						for k, e := range menu {
 							if j == i && e.Aspect == d.Aspect {
@@ -371,7 +390,7 @@ func c18Check(r *vcore.Run) vcore.Coverage {
 		"list consumers decline after 20 items",
 	}
 	return vcore.Coverage{Evaluations: int64(len(scripts)), Nontrivial: two, Exhaustive: atomic.LoadInt32(&c18Abort) == 0,
-		Rule: fmt.Sprintf("%d client operations (every request kind; paging with ListPageSize -1,0,1,2; large-manifest tag read; chunked upload with tiny chunks; both resume modes) x deviation menu of %d entries (11 statuses; Location, Range, Content-Range, Content-Length, Docker-Content-Digest, Link, OCI-Chunk-Min-Length each absent/empty/garbage/huge/negative/contradictory; 10 content types; 17 bodies incl. wrong JSON types, truncated, 9 KiB) at every response position, all single deviations and pairs (quick: pairs involving a status and a reduced second menu; thorough: full product); non-trivial = scripts with two deviations", len(c18Ops), len(c18Menu()))}
+		Rule: fmt.Sprintf("%d client operations (every request kind; paging with ListPageSize -1,0,1,2; large-manifest tag read; chunked upload with tiny chunks; both resume modes) x deviation menu of %d entries (11 statuses; Location, Range, Content-Range, Content-Length, Docker-Content-Digest, Link, OCI-Chunk-Min-Length each absent/empty/garbage/huge/negative/contradictory; 10 content types; 17 bodies incl. wrong JSON types, truncated, 9 KiB) at every response position, all single deviations (once, and from that response onwards) and pairs (quick: pairs involving a status and a reduced second menu; thorough: full product); non-trivial = scripts with two deviations", len(c18Ops), len(c18Menu()))}
 }
 
 func c18Replay(r *vcore.Run, sub string, raw json.RawMessage) {
